@@ -8,7 +8,7 @@
  * Define V_TXCAP=<n> to enable the truncated-object abstraction for the MTU-sized transmit buffer
  * (DESIGN 3.4): allocations larger than V_SMALL_MAX return an object of exactly V_TXCAP bytes.
  */
-#include "v_ghost.h"
+#include "v_harness.h"
 #include "v_spec.h"
 #include "lltdPort.h"
 
@@ -34,37 +34,25 @@ void *g_ctx;
 void v_env_reset(void) {
 #ifdef V_REPLAY
     memset(&g_led, 0, sizeof(g_led));
+    memset(&g_req, 0, sizeof(g_req));
 #else
     struct v_led z = {0};
     g_led = z;
+    struct v_req zr = {0};
+    g_req = zr;
 #endif
+    g_k = 0; g_j = 0;
     g_led.clk_s = g_cfg.clk_s0;
     g_led.clk_ms_frac = g_cfg.clk_frac0;
     g_led.clk_ms = g_led.clk_s * 1000u + g_led.clk_ms_frac;
 }
 
-/* ---- clock: monotone; seconds and milliseconds derive from the same instant ---------------------- */
-static void v_clk_advance(void) {
-    unsigned k = g_led.clk_reads % V_NCLK;
-    g_led.clk_reads++;
-    uint32_t ds = g_cfg.clk_adv_s[k];
-    uint16_t fr = g_cfg.clk_frac[k];
-    if (ds == 0) {
-        if (fr > g_led.clk_ms_frac) g_led.clk_ms_frac = fr;   /* never backwards */
-    } else {
-        g_led.clk_s += ds;
-        g_led.clk_ms_frac = fr;
-    }
-    g_led.clk_ms = g_led.clk_s * 1000u + g_led.clk_ms_frac;
-}
-
+/* ---- clock: pure reads of the instant of this call (A2) ------------------------------------------- */
 uint64_t lltd_port_monotonic_seconds(void) {
-    v_clk_advance();
     return g_led.clk_s;
 }
 
 uint64_t lltd_port_monotonic_milliseconds(void) {
-    v_clk_advance();
     return g_led.clk_ms;
 }
 
@@ -178,11 +166,12 @@ void lltd_port_log_warning(const char *fmt, ...) { (void)fmt; }
 
 /* ---- transmit: the single oracle for everything that leaves the responder ------------------------ */
 int lltd_port_send_frame(void *iface_ctx, const void *frame, size_t frame_len) {
+    V_CANARY("tx");
     V_REQUIRE("C17.send-ctx: transmit on the interface the request arrived on", iface_ctx == g_ctx);
     v_frame_check((const uint8_t *)frame, frame_len);
     const uint8_t *f = (const uint8_t *)frame;
     unsigned k = g_led.tx_attempts & 31u;
-    if (g_led.tx_attempts == 0) {
+    if (g_led.tx_attempts == g_req.tx_base) {
         g_led.first_op = f[17];
         for (int i = 0; i < 6; i++) {
             g_led.first_eth_dst.a[i] = f[i];
